@@ -8,7 +8,7 @@ from symv.program import Program, deep_twin
 
 META = {
     "level": "exploration",
-    "level_text": "A dtype-rule monitor inspects every block of every value returned by random API programs and by a dedicated zero-creation stream run in float32, float64, complex64 and complex128: result blocks have the numpy result type of the operand blocks (real counterpart for singular values, eigenvalues, abs, norm), including zero blocks created by fuse (insert and concat), to_dense, fill_missing_blocks and the fused contraction path; numpy's ComplexWarning is an error inside workers; and each array result is compared with the same step issued on a float64/complex128 twin within the precision of the narrower type, so that a discarded imaginary part or a silent up/down-cast shows in value as well as in dtype. Later additions: per-step operand dtypes, mixed-dtype operands and blocks judged against double twins, contractions over >= 32 partial terms with operands of different types, 32-48 wide blocks incl. real-valued complex data, sparse Hermitian eigh, ill-conditioned solves with generic right-hand sides. Round 9: 32-48 wide blocks with identically zero rows / columns; user-defined symmetries.",
+    "level_text": "A dtype-rule monitor inspects every block of every value returned by random API programs and by a dedicated zero-creation stream run in float32, float64, complex64 and complex128: result blocks have the numpy result type of the operand blocks (real counterpart for singular values, eigenvalues, abs, norm), including zero blocks created by fuse (insert and concat), to_dense, fill_missing_blocks and the fused contraction path; numpy's ComplexWarning is an error inside workers; and each array result is compared with the same step issued on a float64/complex128 twin within the precision of the narrower type, so that a discarded imaginary part or a silent up/down-cast shows in value as well as in dtype. Later additions: per-step operand dtypes, mixed-dtype operands and blocks judged against double twins, contractions over >= 32 partial terms with operands of different types, 32-48 wide blocks incl. real-valued complex data, sparse Hermitian eigh, ill-conditioned solves with generic right-hand sides. Round 9: 32-48 wide blocks with identically zero rows / columns; user-defined symmetries. Round 10: set_params with blocks of every other element type (stored as given; untouched blocks keep their type).",
     "technique": "runtime monitoring: dtype-rule oracle on every returned block + high-precision twin differential",
     "rule": (
         "one evaluation = one returned value whose blocks were checked against the dtype rule (and, for arrays, against the high-precision twin). "
